@@ -21,6 +21,7 @@ import os
 from .core import SimCrash
 
 PREFIX = "sim:/"
+FAKE_FD = [1 << 24]
 
 
 def is_sim(path):
@@ -36,6 +37,27 @@ def as_key(path):
 class SimDisk:
     def __init__(self):
         self.files = {}
+        self._seen = {}            # path -> (content hash, mtime_ns) as last reported by stat()
+        self._clock = 1_700_000_000_000_000_000
+
+    def stat(self, path):
+        """Size and modification time of a simulated file.  The time stamp moves (strictly forward) whenever the content
+        differs from what the previous stat of this path saw - machines may assign ``files[path]`` directly, so the
+        stamp is derived at observation time instead of being tracked at every mutation site."""
+        import hashlib
+        import types
+        if path not in self.files:
+            raise FileNotFoundError(errno.ENOENT, "No such file or directory", path)
+        data = bytes(self.files[path])
+        h = hashlib.sha256(data).digest()
+        old = self._seen.get(path)
+        if old is None or old[0] != h:
+            self._clock += 1_000_003
+            self._seen[path] = (h, self._clock)
+        ns = self._seen[path][1]
+        return types.SimpleNamespace(st_size=len(data), st_mtime_ns=ns, st_mtime=ns / 1e9, st_ctime_ns=ns, st_ctime=ns / 1e9,
+                                     st_atime_ns=ns, st_atime=ns / 1e9, st_mode=0o100644, st_ino=abs(hash(path)) % (1 << 31),
+                                     st_dev=1, st_nlink=1, st_uid=0, st_gid=0)
 
     def snapshot(self):
         return {k: bytes(v) for k, v in self.files.items()}
@@ -61,6 +83,14 @@ class SimRaw(io.RawIOBase):
                 raise FileNotFoundError(errno.ENOENT, "No such file or directory", path)
 
     # capabilities ------------------------------------------------------
+    def fileno(self):
+        """A fake descriptor (>= 2**20): enough for advisory locking (fcntl.flock / lockf are no-ops on it while the seams
+        are installed) and os.fsync through the OsProxy."""
+        if not hasattr(self, "_fd"):
+            self._fd = FAKE_FD[0]
+            FAKE_FD[0] += 1
+        return self._fd
+
     def readable(self):
         return "r" in self.mode or "+" in self.mode
 
@@ -214,9 +244,33 @@ class OsPathProxy:
         return getattr(self._real, name)
 
     def exists(self, p):
-        return p in self._fs.disk.files if is_sim(p) else self._real.exists(p)
+        return as_key(p) in self._fs.disk.files if is_sim(p) else self._real.exists(p)
 
     isfile = exists
+
+    def isdir(self, p):
+        return False if is_sim(p) else self._real.isdir(p)
+
+    def getsize(self, p):
+        return self._fs.disk.stat(as_key(p)).st_size if is_sim(p) else self._real.getsize(p)
+
+    def getmtime(self, p):
+        return self._fs.disk.stat(as_key(p)).st_mtime if is_sim(p) else self._real.getmtime(p)
+
+    def _same(self, p):                       # sim:/ paths are already absolute, normal and real
+        return as_key(p)
+
+    def abspath(self, p):
+        return self._same(p) if is_sim(p) else self._real.abspath(p)
+
+    def realpath(self, p, *a, **k):
+        return self._same(p) if is_sim(p) else self._real.realpath(p, *a, **k)
+
+    def normpath(self, p):
+        return self._same(p) if is_sim(p) else self._real.normpath(p)
+
+    def expanduser(self, p):
+        return self._same(p) if is_sim(p) else self._real.expanduser(p)
 
 
 class OsProxy:
@@ -249,6 +303,13 @@ class OsProxy:
         self._next[0] += 1
         self._fs.fds[fd] = (path, flags)
         return fd
+
+    def stat(self, path, *a, **k):
+        if is_sim(path):
+            return self._fs.disk.stat(as_key(path))
+        return self._os.stat(path, *a, **k)
+
+    lstat = stat
 
     def fdopen(self, fd, *args, **kwargs):
         if fd in self._fs.fds:
@@ -333,6 +394,14 @@ class Patched:
         for m in self.npm:
             self.saved.append((m, "np", m.__dict__.get("np", _MISSING)))
             m.np = NpProxy(m.__dict__["np"], self.fs)
+        try:                                    # advisory locks on simulated files always succeed at once (one process)
+            import fcntl as _fcntl
+            for name in ("flock", "lockf"):
+                real = getattr(_fcntl, name)
+                self.saved.append((_fcntl, name, real))
+                setattr(_fcntl, name, _lock_shim(real))
+        except ImportError:                     # pragma: no cover
+            pass
         return self.fs
 
     def __exit__(self, *exc):
@@ -349,3 +418,12 @@ class Patched:
 
 
 _MISSING = object()
+
+
+def _lock_shim(real):
+    def shim(fd, *a, **k):
+        n = fd if isinstance(fd, int) else fd.fileno()
+        if n >= (1 << 20):
+            return None
+        return real(fd, *a, **k)
+    return shim
